@@ -256,12 +256,14 @@ def wrap_paragraph(
         len_fn=len_fn,
         is_markdown=is_markdown,
     )
+    # Restore original adjacency for paired tags (remove spaces added during tokenization).
+    # This is done before the indents are inserted so that they cannot sit between two tags.
+    if lines:
+        lines = denormalize_adjacent_tags("\n".join(lines), original=text).split("\n")
+
     # Now insert indents on first and subsequent lines, if needed.
     if initial_indent and initial_column == 0 and len(lines) > 0:
         lines[0] = initial_indent + lines[0]
     if subsequent_indent and len(lines) > 1:
         lines[1:] = [subsequent_indent + line for line in lines[1:]]
-    result = "\n".join(lines)
-
-    # Restore original adjacency for paired tags (remove spaces added during tokenization)
-    return denormalize_adjacent_tags(result)
+    return "\n".join(lines)
